@@ -154,4 +154,26 @@ def walks(req):
     return res
 
 
-HANDLERS = dict(lcas_batch=lcas_batch, repo_api=repo_api, git_merge_base=git_merge_base, walks=walks)
+def walk_model(req):
+    """date-ordered walks without excludes, and _topo_reorder on given entry orders, for comparison with the model"""
+    from types import SimpleNamespace
+    from dulwich.walk import Walker, _topo_reorder
+    d = _dag(req["dag"])
+    r, ids = build_repo(d, req["stamps"])
+    idx = {v: i for i, v in enumerate(ids)}
+    out = {"walk": [], "topo": []}
+    for inc in req["includes"]:
+        try:
+            out["walk"].append(".".join(str(idx[e.commit.id]) for e in Walker(r.object_store, [ids[i] for i in inc])) or "-")
+        except Exception as e:  # noqa: BLE001
+            out["walk"].append("exc:" + type(e).__name__)
+    for order in req["orders"]:
+        ents = [SimpleNamespace(commit=SimpleNamespace(id=ids[i], parents=[ids[p] for p in d[i]])) for i in order]
+        try:
+            out["topo"].append(".".join(str(idx[e.commit.id]) for e in _topo_reorder(iter(ents))) or "-")
+        except Exception as e:  # noqa: BLE001
+            out["topo"].append("exc:" + type(e).__name__)
+    return out
+
+
+HANDLERS = dict(lcas_batch=lcas_batch, repo_api=repo_api, git_merge_base=git_merge_base, walks=walks, walk_model=walk_model)
